@@ -304,10 +304,10 @@ ASSUME = [
 CLAIM = dict(
     text='Machine-checked proof (Coq 8.16.1) about the models of index.ChunkReader.Read and of bam.Reader Read/SetChunk at the record-framing level, both written over the reader model of C02: '
          'a ChunkReader over any chunk list that is ordered and non-overlapping in the flat stream (valid ends, both representations of a block boundary, zero-length chunks) returns, for every buffer-size sequence, '
-         'a prefix of the concatenated flat spans, reports io.EOF only at the very end and only when everything was delivered (chunkreader_exact_partial, on the reader with store objects); '
-         'under the hypothesis that the stream after the header is a sequence of length-prefixed frames, SetChunk(Begin of record i, End of record j) from any later reader state yields exactly records i..j and then io.EOF (chunk_replay), '
+         'a prefix of the concatenated flat spans, reports io.EOF only at the very end and only when everything was delivered, and does so after a bounded number of non-empty reads (chunkreader_exact_partial + chunkreader_terminates, on the reader with store objects); '
+         'under the hypothesis that the stream after the header is a sequence of length-prefixed frames, SetChunk(Begin of record i, End of record j) from any later reader state yields exactly records i..j and then io.EOF (chunk_replay), an Iterator over any list of such chunks in any order yields their records in turn (iterator_replay), '
          'and the End offset recorded after a read is canonical. Models are run against the implementation on generated files on every run; a flat-span / record-layout oracle judges the implementation directly.',
-    note='Partial: termination of the ChunkReader stream is not proved; chunk_replay is on the value reader under the framing hypothesis (BAM field decoding not modelled), the Iterator loop is covered through "any later state" only; '
+    note='chunk_replay / iterator_replay are on the value reader under the framing hypothesis (BAM field decoding not modelled); '
          'members of 65536 bytes excluded (C02 finding). Trusted: Coq kernel, hand models (validated by correspondence), harness, oracle. No axioms.',
     technique='Coq proof over hand models + vm_compute correspondence + flat-span oracle',
     design='6/C13')
